@@ -9,7 +9,7 @@ CONSTANTS
   OmitChoices = {0, 2}
   InitStamps = {0}
   NoDefault = {"p1"}
-  InitScopeSets = {{}, {"mod2"}}
+  InitScopeSets = {{"all"}}
   HiddenChoices = {{}}
   ActScopes = {"all"}
   RepKinds = {}
